@@ -24,6 +24,7 @@ func NewAlert(parents []ast.Node) *AlertNode {
 // Build creates a Alert ast.Node
 func (n *AlertNode) Build(a *pipeline.AlertNode) (ast.Node, error) {
 	n.Pipe("alert").
+		Dot("category", a.Category).
 		Dot("topic", a.Topic).
 		Dot("id", a.Id).
 		Dot("message", a.Message).
